@@ -1,4 +1,4 @@
-"""C03 — No network input can corrupt memory, hang the parser or take the server down (parser-level part)."""
+"""C03 — No network input can corrupt memory, hang the parser or take the server down (parser level + live server level)."""
 import re
 from vlib import core, httpgen as G
 from vlib.props import c01
@@ -92,11 +92,40 @@ def classify(line, out):
 
 RULE = ('every registered header x a garbage value list (overlong numbers, missing/doubled separators, NUL/0xFF, truncated values), whole and cut inside the value; every prefix of every stress message as the '
         'complete input (lines truncated exactly at the end of the buffer); seeded multi-mutation messages x segmentations x size limits; random garbage. ASan+UBSan+vector annotations, exact-size segment buffers, 5 s watchdog. '
-        'non-trivial = distinct (kind, message prefix, outcome, cut prefix)')
+        'non-trivial = distinct (kind, message prefix, outcome, cut prefix)' ' Server level: 250 (thorough 3000) of the request-side inputs are written in the same pieces to a LIVE endpoint (ASan/UBSan build); the status the server answers (or its silence) and whether the handler ran are compared with the parser model, and the process must stay up.')
 ASSUME = ['parser level only in this revision: the server-level clause (offending connection gets 4xx/5xx, other connections keep being answered) is exercised by the live driver of C08/C14',
           'memory safety of the implementation is observed (sanitizers), not proved: the model cannot read outside its list of bytes']
 
+def server_lines(tier, rnd, lines):
+    """the request-side inputs of the parser-level generator, sent to a LIVE endpoint in the same pieces"""
+    reqs = [l for l in lines if l.startswith('parse req ')]
+    rnd.shuffle(reqs)
+    out = []
+    for l in reqs[:(250 if tier == 'quick' else 3000)]:
+        w = l.split()
+        if w[3] == '-' or len(w[3]) > 16000: continue
+        out.append('lim %s %s %s' % (w[2], w[3], w[4]))
+    return out
+
+def oracle_server(ln, out):
+    """server-level clause: whatever arrives, the server neither crashes nor hangs and answers with a status a client can act on"""
+    if any(x in out for x in BAD + ('connect-failed',)):
+        return ('server-down', 'the server process aborted, hung or stopped accepting connections: ' + out[:160])
+    m = re.match(r'status=(\d+) handler=(\d+)', out)
+    if not m: return 'unexpected output ' + out[:80]
+    st = int(m.group(1))
+    if st not in (0, 200) and not (400 <= st <= 599): return ('status', 'answered with status %d' % st)
+    return None
+
+def extra(res, lean, drv, tier, rnd):
+    from vlib import drivers
+    ldrv, err = core.build_driver('drv_live', drivers.LIVE_SOURCES)
+    if err:
+        res.failures.append({'kind': 'kdiff', 'detail': 'cannot build the live driver: ' + err}); return
+    lines = server_lines(tier, rnd, gen(tier, rnd))
+    core.kdiff(res, lean, ldrv, lines, oracle=oracle_server, classify=lambda l, o: ('srv', o.split(' bodyseen')[0]), tag='srv:', retry=2)
+
 def run(tier):
-    return core.standard_run(PROP, tier, MODULES, THEOREMS, gen, oracle, classify, RULE, ASSUME)
+    return core.standard_run(PROP, tier, MODULES, THEOREMS, gen, oracle, classify, RULE, ASSUME, extra=extra)
 def replay(path):
     return core.standard_replay(PROP, path, oracle)
